@@ -22,14 +22,17 @@ RULE = ("events.get_key is driven incrementally exactly as Input.find_key does. 
         "Input.send over a pty for the table-sequence cases. distinct = distinct (encoding, "
         "bytes) ; non-trivial = more than one byte or a non-ASCII byte.")
 FLOOR = 3000
-SHARDS = {"thorough": 16}
-TIMEOUT = {"thorough": 3000}
+SHARDS = {"quick": 4, "thorough": 16}
+TIMEOUT = {"quick": 900, "thorough": 3000}
 ASSUMPTIONS = ["valid input = concatenation of table sequences and validly encoded characters; under utf-8 a "
                "single byte >= 0x80 is a recognised (Meta) key only as the last byte of a read",
                "table names come from the live CURTSIES_NAMES / CURSES_NAMES (the tables are the authority for names)",
                "latin-1 is selected by replacing curtsies.input.getpreferredencoding in the end-to-end runs (no such locale in this image)"]
 
 ENCODINGS = ("ascii", "latin-1", "utf-8")
+# other spellings of the same three encodings, as locale.getpreferredencoding() reports them
+# (C/POSIX locale: ANSI_X3.4-1968); explored through the table/stream cases, not the whole tree
+ALIASES = ("ANSI_X3.4-1968", "US-ASCII", "UTF8", "utf_8", "ISO-8859-1", "latin1", "iso8859-1")
 
 
 def classify_raise(facts, seq, exc):
@@ -141,6 +144,8 @@ def run_case(ctx, case):
         judge_node(ctx, facts, seq, res)
     elif kind == "stream":
         stream_case(ctx, facts, case, case["data"], case.get("chunks"), case.get("expect"))
+    elif kind == "interrupted-decode":
+        interrupted_decode(ctx)
     elif kind == "e2e":
         from . import c03_e2e
         c03_e2e.run_case(ctx, case)
@@ -172,13 +177,63 @@ def units_for(facts, rng):
         return rng.choice(tabs)
 
 
+def interrupted_decode(ctx):
+    """Fault enumeration: a KeyboardInterrupt lands at every statement of a decode in
+    progress (forked children, so decoder state that is built or cached lazily is in its
+    pristine state each time); decoding must be unaffected afterwards."""
+    from .. import inject
+    from curtsies import events
+    enc = "utf-8"
+    facts = Facts(enc)
+    action_stream = "一\x1b[Aé😀a\x1b[1;5C".encode(enc)
+    probes = [chr(c).encode(enc) for c in (0x61, 0xE9, 0x416, 0x4E00, 0x20AC, 0x1F600, 0x10FFFF, 0x7FF, 0x800, 0xFFFF, 0x10000)]
+    probes += [b"\x1b[A", b"\x1b[1;5C", b"\x1bOP", b"\x1b", b"\x7f", "é一".encode(enc) + b"\x1b[B" + "😀".encode(enc)]
+
+    def action():
+        drive(events.get_key, [action_stream], enc, events.Keynames.CURTSIES)
+
+    def probe():
+        bad = []
+        for data in probes:
+            for mode, km in keysengine.modes().items():
+                try:
+                    keys = drive(events.get_key, [data], enc, km)
+                except Exception as ex:  # noqa
+                    bad.append([data.hex(), mode, repr(ex)])
+                    continue
+                if mode == "bytes" and b"".join(keys) != data:
+                    bad.append([data.hex(), mode, [k.hex() for k in keys]])
+                if mode == "curtsies" and facts.C_full(data) and data not in facts.table and keys != [data.decode(enc)]:
+                    bad.append([data.hex(), mode, keys])
+        return bad
+    n, results = inject.fork_crash_points(action, probe, ctx.mine)
+    if ctx.shard[0] == 0:
+        ctx.notes["decode_statements_enumerated_as_crash_points"] = n
+    for res in results:
+        if res.get("error"):
+            ctx.inconclusive_because("interrupted-decode child error: %s" % res["error"])
+            continue
+        if res["k"] == 0:
+            if res["bad"]:
+                ctx.inconclusive_because("decode probe fails without interruption: %r" % (res["bad"][:1],))
+            continue
+        case = {"kind": "interrupted-decode", "encoding": enc, "statement": res["k"], "where": res.get("where")}
+        ctx.judge(not res["bad"], case, ("C03", "interrupted", res["k"]), "C03:decoder-state-damaged-by-interrupt",
+                  "probe streams decoded as before", res["bad"][:3], {"fired": res["fired"]}, nontrivial=res["fired"])
+        ctx.count("interrupted_decode_crash_points")
+
+
 def run(ctx):
     rng = ctx.rng
     quick = ctx.quick
-    for ei, enc in enumerate(ENCODINGS):
+    interrupted_decode(ctx)
+    encs = ENCODINGS + (ALIASES if not quick else ("ANSI_X3.4-1968", "UTF8", "latin1"))
+    for ei, enc in enumerate(encs):
         facts = Facts(enc)
+        alias = enc in ALIASES
+        next_bytes = range(256) if not (alias and quick) else sorted(rng.sample(range(256), 12) + [0x1b, 0x41, 0x80, 0xc3, 0xe2, 0xff])
         # (1) decision tree - whole tree handled by one shard per encoding
-        if ctx.mine(ei):
+        if ctx.mine(ei) and (not alias or not quick or enc in ("ANSI_X3.4-1968", "UTF8")):
             n = keysengine.explore(enc, rng, lambda s, r: judge_node(ctx, facts, s, r),
                                    exhaustive=False)
             ctx.notes["tree_nodes_%s" % enc] = n
@@ -192,7 +247,7 @@ def run(ctx):
             if ctx.mine(n):
                 stream_case(ctx, facts, {"kind": "stream", "encoding": enc, "data": T, "expect": [T]},
                             T, expect=[T])
-            for b in range(256):
+            for b in next_bytes:
                 n += 1
                 if not ctx.mine(n):
                     continue
@@ -211,7 +266,9 @@ def run(ctx):
         multi = [t for t in tabs if t not in facts.meta]
         pairs = list(itertools.product(multi, multi))
         if quick:
-            pairs = rng.sample(pairs, 2500)
+            pairs = rng.sample(pairs, 2500 if not alias else 300)
+        elif alias:
+            pairs = rng.sample(pairs, 5000)
         for T1, T2 in pairs:
             n += 1
             if not ctx.mine(n):
@@ -222,7 +279,7 @@ def run(ctx):
                         data, expect=expect)
             ctx.count("table_pairs")
         # (2c) Unicode scalar values
-        for cp in scalars(ctx, quick):
+        for cp in (scalars(ctx, quick) if not alias else scalars(ctx, True)[::7]):
             n += 1
             if not ctx.mine(n):
                 continue
